@@ -81,6 +81,37 @@ pub fn check_automaton(rep: &mut Report, auto: &mut Automaton, origin: &str, kin
                 bad!("edges", "default_successor of state {} disagrees with the complement edge", i);
             }
         }
+        // per-state class accessors
+        let comp_nonempty = {
+            let covered: u64 = ranges.iter().map(|&(a, b)| (b - a + 1) as u64).sum();
+            covered < MAXC as u64 + 1
+        };
+        let picks: Vec<u32> = s.char_picks().collect();
+        let classes: Vec<ClassId> = s.char_classes().collect();
+        let want_n = ranges.len() + comp_nonempty as usize;
+        if picks.len() != want_n || classes.len() != want_n {
+            bad!("state-accessors", "state {}: char_picks() yields {} characters and char_classes() {} ids for {} classes", i, picks.len(), classes.len(), want_n);
+        }
+        for (q, (&c, &cid)) in picks.iter().zip(classes.iter()).enumerate() {
+            let by_scan = ranges.iter().position(|&(a, b)| a <= c && c <= b);
+            let want_cid = match by_scan {
+                Some(j) => ClassId::Interval(j),
+                None => ClassId::Complement,
+            };
+            if c > MAXC || s.class_of_char(c) != want_cid || cid != want_cid || !s.valid_class_id(cid) || (q < ranges.len()) != by_scan.is_some() {
+                bad!("state-accessors", "state {}: pick #{} = {:x} is listed for class {} but lies in {}", i, q, c, cid, want_cid);
+            }
+            if auto.class_next(s, cid).id() != auto.next(s, c).id() {
+                bad!("state-accessors", "state {}: class_next({}) and next({:x}) disagree", i, cid, c);
+            }
+        }
+        if s.valid_class_id(ClassId::Interval(ranges.len())) || s.valid_class_id(ClassId::Complement) != comp_nonempty {
+            bad!("state-accessors", "state {}: valid_class_id accepts an invalid id or rejects the complement", i);
+        }
+        if comp_nonempty && !s.has_default_successor() {
+            bad!("state-accessors", "state {}: has uncovered characters but no default successor", i);
+        }
+        rep.inc("state_accessor_checks");
         let want_edges = ranges.len() + s.has_default_successor() as usize;
         if seen != want_edges || s.num_successors() != ranges.len() {
             bad!("edges", "edges(state {}) yields {} edges for {} ranges and default={}", i, seen, ranges.len(), s.has_default_successor());
